@@ -177,6 +177,21 @@ type HoldsRho struct {
 	A int         `json:"a"`
 	R PtrIntoSelf `json:"r"`
 }
+// recursive DEFINED ARRAY types (reflect kind Array with a name): every named type on the cycle is an array type; the cycle is
+// closed through a pointer, slice or map element (a Go array type cannot contain itself by value). HoldsQuad and QuadList merely
+// contain one (they are not on the cycle themselves). Vec3 and Grid are plain (non-recursive) defined array types.
+type Quad [4]*Quad
+type Trie [2][]Trie
+type ArrMap [1]map[string]ArrMap
+type ArrA [2]*ArrB
+type ArrB [3]*ArrA
+type HoldsQuad struct {
+	N int  `json:"n"`
+	Q Quad `json:"q"`
+}
+type QuadList []Quad
+type Vec3 [3]float64
+type Grid [2][2]MyInt
 type PtrInt *int
 type PtrInner *Inner
 type HoldsPtrs struct {
@@ -205,6 +220,9 @@ var bank = map[string]reflect.Type{
 	"PtrSelf": reflect.TypeFor[PtrSelf](), "PtrA": reflect.TypeFor[PtrA](), "PtrInt": reflect.TypeFor[PtrInt](),
 	"PtrIntoSelf": reflect.TypeFor[PtrIntoSelf](), "PtrTail1": reflect.TypeFor[PtrTail1](), "PtrC1": reflect.TypeFor[PtrC1](),
 	"HoldsRho": reflect.TypeFor[HoldsRho](),
+	"Quad": reflect.TypeFor[Quad](), "Trie": reflect.TypeFor[Trie](), "ArrMap": reflect.TypeFor[ArrMap](), "ArrA": reflect.TypeFor[ArrA](),
+	"HoldsQuad": reflect.TypeFor[HoldsQuad](), "QuadList": reflect.TypeFor[QuadList](),
+	"Vec3": reflect.TypeFor[Vec3](), "Grid": reflect.TypeFor[Grid](),
 	"PtrInner": reflect.TypeFor[PtrInner](), "HoldsPtrs": reflect.TypeFor[HoldsPtrs](),
 	"Handler": reflect.TypeFor[Handler](), "IntKeyed": reflect.TypeFor[IntKeyed](), "MyChan": reflect.TypeFor[MyChan](),
 	"TwoHandlers": reflect.TypeFor[TwoHandlers](),
@@ -351,8 +369,8 @@ func genValue(v reflect.Value, rng *rand.Rand, mode int, depth int) {
 		genValue(p.Elem(), rng, mode, depth+1)
 		v.Set(p)
 	case reflect.Slice:
-		if mode == 0 {
-			return // nil slice
+		if mode == 0 || depth > 12 {
+			return // nil slice (depth: recursive declared types such as `type Trie [2][]Trie` have values of any size)
 		}
 		n := 0
 		if mode >= 2 {
@@ -371,7 +389,7 @@ func genValue(v reflect.Value, rng *rand.Rand, mode int, depth int) {
 		// nil maps are outside the domain: always make one
 		m := reflect.MakeMap(t)
 		n := 0
-		if mode >= 2 {
+		if mode >= 2 && depth <= 12 {
 			n = rng.Intn(3)
 		}
 		for i := 0; i < n; i++ {
